@@ -194,7 +194,181 @@ def run_c10(ctx):
                              'float part: struct.pack/unpack not modelled; decided by the exponent-exhaustive sweep only (partial)'])
 
 
+
+# ------------------------------------------------------------------------------------------- scenario families
+import streams2
+
+
+def _s2_result(tot, rule, assumptions=(), exhaustive=False):
+    cov = dict(evaluations=tot['n'], distinct_nontrivial=tot['distinct'], rule=rule, samples=tot['samples'][:3],
+               status_histogram=tot['stats'], scenario_histogram=tot.get('labels', {}), oracle_calls=tot['oracle_calls'],
+               programs=tot['n'], disagreements_checked=len(tot['disagreements']))
+    if exhaustive:
+        cov['exhaustive'] = True
+    return dict(coverage=cov, disagreements=tot['disagreements'], violations=tot['violations'], assumptions=list(assumptions))
+
+
+FAM_RULE = ('scenarios built with the real tapescript.tools builders (honest witness, every single perturbation, cross-pairings, '
+            'boundary timestamps) from a seeded PRNG; run_auth_scripts on the implementation vs the extracted Coq model '
+            '(verdict, cache, plugin/contract log compared); direct oracle: the verdict the property text requires for the scenario. ')
+
+
+def _fam(names, quick, thorough, extra_rule='', assumptions=()):
+    def run(ctx):
+        rounds = _sizes(ctx['tier'], quick, thorough)
+        tot = streams2.run_families(names, ctx['seed'], rounds, ctx['nproc'])
+        return _s2_result(tot, FAM_RULE + extra_rule, assumptions)
+    return run
+
+
+def run_c01(ctx):
+    n = _sizes(ctx['tier'], 24000, 800000)
+    tot = streams2.run_tasks(streams2.c01_task, ctx['seed'] + 101, n, ctx['nproc'], max(500, n // (ctx['nproc'] * 2)))
+    return _s2_result(tot, 'lists of 1-4 scripts: generated programs, witnesses that RETURN at nesting depth 0-3 inside '
+                      'IF/IF_ELSE/TRY/LOOP/EVAL/DEF+CALL, define functions, write cache entries, leave junk, burn call budget; locks with '
+                      'IF/TRY heads and verifying tails; raw byte strings; caches incl. the control key; limits from small to default. '
+                      'run_auth_scripts: implementation vs model. Direct oracle on a traced real run: verdict == (every script ran without '
+                      'raising and final stack == [ff]); top-level execution of each script contiguous from offset 0; an instruction may end '
+                      'the script early only if a RETURN instruction executed inside it; run_auth_scripts never raises.',
+                      ["an embedder-supplied 'returned' cache entry is outside the statement (D13)"])
+
+
+def run_c02(ctx):
+    n = _sizes(ctx['tier'], 16000, 600000)
+    tot = streams2.run_tasks(streams2.c02_task, ctx['seed'] + 202, n, ctx['nproc'], max(400, n // (ctx['nproc'] * 2)))
+    return _s2_result(tot, 'random (flag, allowed, field-presence, field contents) with real Ed25519 signatures: explicit signature items '
+                      '(valid, bit-flipped, truncated, wrong key, changed covered/excluded field), sign-then-check, GET_MESSAGE+SIGN_STACK+'
+                      'CHECK_SIG_STACK; implementation vs model; direct oracle: error iff wrong lengths or flag not within allowed, else '
+                      'true iff PyNaCl verifies the first 64 bytes over the flag-selected message.',
+                      ['Ed25519 (PyNaCl) is the oracle of validity; unforgeability is not claimed'])
+
+
+def run_c03(ctx):
+    n = _sizes(ctx['tier'], 12000, 400000)
+    tot = streams2.run_tasks(streams2.c03_task, ctx['seed'] + 303, n, ctx['nproc'], max(300, n // (ctx['nproc'] * 2)))
+    return _s2_result(tot, 'n<=4 keys (incl. duplicate keys via raw bytecode), m<=n signatures by listed signers / outsiders / repeated / '
+                      'flag variants (65-byte form, flagged), shuffled; CHECK_MULTISIG(_VERIFY): implementation vs model; direct oracle: '
+                      'true iff the signatures are pairwise different byte strings and an injective matching to key positions exists '
+                      '(brute force over permutations, validity by PyNaCl); non-permitted flag never true.')
+
+
+def run_c09(ctx):
+    depth = 2 if ctx['tier'] == 'quick' else 3
+    tot = streams2.run_c09(ctx['seed'], depth, ctx['nproc'])
+    r = _s2_result(tot, 'every nesting of {IF, IF_ELSE both arms, TRY, EXCEPT, LOOP, DEF/CALL, EVAL, MERKLEVAL, TAPROOT script path} up to depth %d '
+                   '(%d contexts) around 16 probe instructions x 10 embedder configurations (flags 0-10 off, thresholds, disallow_OP_EVAL, eval_return, '
+                   'plugins, contracts); run_script: implementation vs model; direct oracle: a flag that is off never writes its cache key, '
+                   'signature-extension plugins run exactly once per signature instruction, disallowed EVAL never runs, contracts reachable.'
+                   % (depth, tot['contexts']), ['OP_SET_FLAG/OP_UNSET_FLAG: known finding D7'], exhaustive=True)
+    return r
+
+
+def run_c20(ctx):
+    tot = streams2.run_c20(ctx['seed'], ctx['tier'], ctx['nproc'])
+    return _s2_result(tot, 'every unassigned code (%d) x count bytes (%s) x stack depths; run_script implementation vs model; direct oracle: '
+                      'negative count -> ScriptExecutionError, count > depth -> IndexError, else exactly count items removed and nothing else; '
+                      'decompile = "NOPn d<signed>" and recompiles to the same bytes.' % (tot['codes'], 'all 256' if ctx['tier'] == 'thorough' else '12 boundary values'),
+                      ['soft-fork simulation theorem: see DESIGN (partial)'], exhaustive=tot['exhaustive'])
+
+
+def run_c16(ctx):
+    import tsh, builders, random as _r
+    rounds = _sizes(ctx['tier'], 4, 60)
+    tot = streams2.run_families(['c16'], ctx['seed'], rounds, ctx['nproc'])
+    # instruction-level grid with non-default thresholds (run_script + flags)
+    m = tsh.Model()
+    rng = _r.Random(ctx['seed'])
+    n = 0
+    for rep in range(1 if ctx['tier'] == 'quick' else 6):
+        for label, script, cache, cfg, exp in builders.c16_instr(rng):
+            n += 1
+            st, i, mm = tsh.compare_script(m, script, cache, cfg)
+            tot['stats'][st] = tot['stats'].get(st, 0) + 1
+            if st == 'differ' and len(tot['disagreements']) < 5:
+                tot['disagreements'].append(dict(label=label, impl=i[:300], model=mm[:300], script=script.hex()))
+            f = i.split(' | ')
+            if exp == 'raise': ok = f[0] == 'raised:ScriptExecutionError'
+            elif exp == 'empty': ok = f[0] == 'done' and f[3] == '-'
+            else: ok = f[0] == 'done' and f[3] == ('ff' if exp else '00')
+            if not ok and len(tot['violations']) < 8:
+                tot['violations'].append(dict(what=label + ': expected %s got %s' % (exp, i[:80]), case=dict(script=script.hex(), cache=tsh.cache_str(cache, False), cfg=cfg.to_json())))
+    m.close()
+    tot['n'] += n; tot['distinct'] += n
+    return _s2_result(tot, FAM_RULE + 'Plus the instruction-level grid: constraint c around now (+-3, threshold +-1, 100) in 5/6/9-byte and minimal '
+                      'encodings x timestamp t around c and around the slack threshold x thresholds {60, 0, -5, 1, 7}, for CHECK_TIMESTAMP(_VERIFY) and CHECK_EPOCH(_VERIFY).',
+                      ['clock pinned by replacing tapescript.functions.time / tools.time in the harness process'])
+
+
+import asmstream
+
+
+def run_c11(ctx):
+    n = _sizes(ctx['tier'], 4000, 150000)
+    tot = streams2.run_tasks(asmstream.c11_task, ctx['seed'] + 1100, n, ctx['nproc'], max(200, n // (ctx['nproc'] * 2)))
+    return _s2_result(tot, 'random abstract programs (all operand shapes, nesting <= 3, boundary operands incl. 255/256/257-byte pushes and non-minimal '
+                      'forms); reference assembler in the harness = documented encoding; the model computes encode(parse_listing(canonical listing)) '
+                      'and must equal it; compile_script on the canonical listing, on 3 random spellings (OP_ prefix / aliases / letter case, braces / END_ '
+                      'terminators, hoisted IF conditions, comments, d/x/s value forms, PUSH pseudo-op, variables @= @x @#x) and on a macro/comptime variant '
+                      'must give exactly those bytes when accepted; a family of sources that cannot be encoded must be rejected.',
+                      ['text front-end below token level, macros and comptime are exercised, not modelled in Coq'])
+
+
+def run_c12(ctx):
+    n = _sizes(ctx['tier'], 4000, 200000)
+    tot = streams2.run_tasks(asmstream.c12_task, ctx['seed'] + 1200, n, ctx['nproc'], max(200, n // (ctx['nproc'] * 2)))
+    maxlen = 2 if ctx['tier'] == 'quick' else 3
+    res = vmstream.run_parallel([(list(range(i, 256, ctx['nproc'])), maxlen) for i in range(ctx['nproc'])], ctx['nproc'], asmstream.c12_short_task)
+    for r in res:
+        tot['n'] += r['n']; tot['distinct'] += r['distinct']
+        tot['disagreements'] += r['disagreements']; tot['violations'] += r['violations']
+        for k, v in r['stats'].items():
+            tot['stats']['short-' + k] = tot['stats'].get('short-' + k, 0) + v
+    return _s2_result(tot, 'decompile_script vs the model decompiler (None = raises) on: every byte string of length <= %d (exhaustive), compiler output of '
+                      'random programs in random spellings, lock/witness builder outputs, mutated/truncated programs, random strings; each under a '
+                      'watchdog; for compiler and builder output additionally compile(decompile(b)) == b.' % maxlen,
+                      ['watchdog only guards the harness: termination is the theorem C12_decode_fuel_enough', 'deep nesting: CPython RecursionError (D14)'])
+
+
+import regstream
+
+
+def run_c19(ctx):
+    n = _sizes(ctx['tier'], 6000, 300000)
+    a = streams2.run_tasks(regstream.reg_task, ctx['seed'] + 1900, n, ctx['nproc'], max(300, n // (ctx['nproc'] * 2)))
+    b = streams2.run_tasks(regstream.indep_task, ctx['seed'] + 1901, n // 2, ctx['nproc'], max(300, n // (ctx['nproc'] * 4)))
+    tot = dict(a)
+    tot['n'] += b['n']; tot['distinct'] += b['distinct']; tot['violations'] = a['violations'] + b['violations']
+    tot['samples'] = a['samples'][:2] + b['samples'][:1]
+    st = dict(a['stats'])
+    for k, v in b['stats'].items():
+        st['independence-' + k] = v
+    tot['stats'] = st
+    return _s2_result(tot, 'random histories (1-14 calls) of add/remove/reset over 3 scopes x 3 plugins, 3 contract ids x 5 contract objects '
+                      '(implementing different interface sets), 4 interfaces, 4 aliases on the real module registries (restored between histories) vs '
+                      'the Registry.v state machine: per-call raise/no-raise, final registries incl. dict and list order, and which recording plugins a '
+                      'subsequent run_script invokes; direct oracle: active = added and not since removed/reset, recomputed from the history. '
+                      'History independence: compile/run B, then A, then B again must give identical results (compile_script, assemble, Script.from_src; '
+                      'run_script, run_auth_scripts) and the caller cache / contract / plugin dictionaries must be unchanged.')
+
+
 REGISTRY = {
+    'C19': dict(run=run_c19, level='proof'),
+    'C11': dict(run=run_c11, level='proof'),
+    'C12': dict(run=run_c12, level='proof'),
+    'C01': dict(run=run_c01, level='proof'),
+    'C02': dict(run=run_c02, level='proof'),
+    'C03': dict(run=run_c03, level='proof'),
+    'C04': dict(run=_fam(['c04'], 40, 2000), level='proof'),
+    'C05': dict(run=_fam(['c05'], 30, 1500), level='proof'),
+    'C09': dict(run=run_c09, level='proof'),
+    'C13': dict(run=_fam(['c13'], 40, 2000), level='proof'),
+    'C14': dict(run=_fam(['c14'], 40, 2000), level='proof'),
+    'C15': dict(run=_fam(['c15'], 40, 2000), level='proof'),
+    'C16': dict(run=run_c16, level='proof'),
+    'C17': dict(run=_fam(['c17'], 40, 2000), level='proof'),
+    'C18': dict(run=_fam(['c18'], 25, 1200), level='proof'),
+    'C20': dict(run=run_c20, level='proof'),
+
     'C06': dict(run=run_c06, level='proof'),
     'C07': dict(run=run_c07, level='proof'),
     'C08': dict(run=run_c08, level='proof'),
